@@ -9,6 +9,33 @@ import NormModel.Model.Lexer
 import NormModel.Model.Engine
 open Lean Norm
 
+/-- engine op: the rule table is replayed from the decisions recorded on the real run:
+each decision is `null` (no primary matched) or `[rule, jump]`, or `"fatal"`. -/
+def engineHandle (op : String) (j : Json) : Except String Json := do
+  if op != "engine" then throw ("unknown op " ++ op)
+  let n ← (j.getObjValD "n").getNat?
+  let debug ← (j.getObjValD "debug").getNat?
+  let ds ← (j.getObjValD "decisions").getArr?
+  let step : Nat → Nat → StepRes Nat := fun i _ =>
+    match ds[i]? with
+    | none => .crash "decisions exhausted"
+    | some d =>
+      if d.isNull then .noMatch (i + 1)
+      else match d.getArr? with
+        | .ok a =>
+          match a[0]!.getStr?, a[1]!.getInt? with
+          | .ok r, .ok jmp => .matched r jmp (i + 1)
+          | _, _ => .crash "bad decision"
+        | .error _ => .fatal "rule raised"
+  let segJson (t : List Segment) : Json :=
+    Json.arr (t.map (fun g => Json.arr #[Json.str g.rule, Json.num (g.start : JsonNumber), Json.num (g.len : JsonNumber)])).toArray
+  let natsJson (l : List Nat) : Json := Json.arr (l.map (fun (x : Nat) => Json.num (x : JsonNumber))).toArray
+  match engineRun step debug 0 n with
+  | .ok used t u => pure (Json.mkObj [("outcome", "ok"), ("trace", segJson t), ("unrec", natsJson u), ("used", Json.num (used : JsonNumber))])
+  | .fatal m t u => pure (Json.mkObj [("outcome", "fatal"), ("msg", Json.str m), ("trace", segJson t), ("unrec", natsJson u)])
+  | .crash w => pure (Json.mkObj [("outcome", "crash"), ("what", Json.str w)])
+  | .hang => pure (Json.mkObj [("outcome", "hang")])
+
 def cps (s : String) : Json := Json.arr (s.toList.map (fun c => Json.num c.toNat)).toArray
 def ofCps (j : Json) : Except String String := do
   let a ← j.getArr?
